@@ -95,6 +95,13 @@ CHECKS = {
              "Float rounding / bit-exact agreement on 2^24 colours is not decided.",
         ref="DESIGN 3/C05",
         note=TB + "; reference formulas in checks/C05.py transcribe WCAG 2; the sRGB knee is compared by 8-bit equivalence class (0.03928 and 0.04045 both accepted)"),
+    "C11": dict(
+        technique="static formula-shape and constant audit (closed-form extraction, helper inlining, hash-consed DAG alignment modulo commutativity) of sRGB->XYZ->Lab and of CIEDE2000 end to end against the published definitions",
+        category="other",
+        text="Decides that the source is the CIE formula: ~45 constants, every sign, every wrap branch of delta-h' and the mean hue, radians() on every trigonometric argument, the operand bindings (C' vs C), the early 0.0 for identical inputs. "
+             "The tests only check three coarse inequalities; a wrong weight or a swapped branch is one mismatching node here. Agreement within 0.05 on all pairs, symmetry under rounding and 'never raises' are numeric and not decided.",
+        ref="DESIGN 3/C11",
+        note=TB + "; references in checks/C11.py transcribe CIE 15 / Sharma-Wu-Dalal / IEC 61966-2-1; matrix and Lab constants compared to 2e-4 relative with CIE-exact spellings accepted"),
 }
 
 NOT_APPLICABLE = {
